@@ -214,15 +214,20 @@ def run(ctx):
             ctx.ob('R14.3', 'the value is touched only while the guard is live', ok and held, ctx.where(cb, blk.term.line), '', construct='closure-guard:' + cb.name)
 
     # ---- R14.4 error mapping ----------------------------------------------------------------------------------
-    maps = [cb for blk, cb in closure_args_of(prog, interact, ['std::result::Result::map_err'])]
+    # the mapping may sit in a `map_err` closure or be spelled out as a match arm of interact itself
+    maps = [cb for blk, cb in closure_args_of(prog, interact, ['std::result::Result::map_err'])] + [interact]
     okm = False
+    n_panic = 0
     for cb in maps:
-        aggs = [s.rv.j['variant'] for blk in cb.blocks for s in blk.stmts if s.kind == 'assign' and s.rv.kind == 'agg' and s.rv.j.get('adt') == 'deadpool_sync::InteractError']
         can = prog.an(cb)
-        if aggs == ['Panic']:
-            s_ = [s for blk in cb.blocks for s in blk.stmts if s.kind == 'assign' and s.rv.kind == 'agg' and s.rv.j.get('adt') == 'deadpool_sync::InteractError'][0]
-            src = sources(can, s_.rv.ops[0])
-            okm = any(x[0] == 'field' and x[1].startswith('deadpool_runtime::SpawnBlockingError') for x in src) or any(x[0] == 'arg' for x in src)
+        for blk in cb.blocks:
+            for s_ in blk.stmts:
+                if s_.kind == 'assign' and s_.rv.kind == 'agg' and s_.rv.j.get('adt') == 'deadpool_sync::InteractError' and s_.rv.j.get('variant') == 'Panic' and not blk.cleanup:
+                    n_panic += 1
+                    src = sources(can, s_.rv.ops[0])
+                    if any(x[0] == 'field' and x[1].startswith('deadpool_runtime::SpawnBlockingError') for x in src) or (cb is not interact and any(x[0] == 'arg' for x in src)):
+                        okm = True
+    okm = okm and n_panic == 1
     ctx.ob('R14.4', 'a panicking closure is reported as InteractError::Panic carrying the payload', okm, ctx.where(interact), '', construct='interact:panic-map')
     if sp:
         cb = sp[0][1]
